@@ -2342,12 +2342,355 @@ def shape_branches(chk, cfg):
                 chk.branch("reused-processor-changed-" + k)
 
 
+# ------------------------------------------------------------------------------------------------
+# EXTENSION 4a: where the heralds come from — Experiment.add_herald / add_port / heralds / m / circuit_size /
+# with_input(BasicState) against the declaration machine PM.C04.declRun (theorems declared_heralds_invariant,
+# declared_heralds_wf, declared_with_input_spec)
+# ------------------------------------------------------------------------------------------------
+def gen_decl_config(rng, max_m):
+    m = rng.randint(2, max_m)
+    ops = []
+    for _ in range(rng.randint(1, 7)):
+        r = rng.random()
+        if r < 0.72:
+            mode = rng.randrange(m) if rng.random() < 0.88 else rng.randint(m, m + 2)
+            if ops and rng.random() < 0.2:
+                mode = rng.choice(ops)["mode"]                         # the mode of an earlier call
+            ops.append({"t": "herald", "mode": mode, "expected": rng.choice([0, 1, 1, 1, 0, 2])})
+        else:
+            ops.append({"t": "port", "mode": rng.randint(0, m), "width": rng.choice([1, 2])})
+    # the number of free modes according to a plain set simulation (only used to aim the input length)
+    occ, nher = set(), 0
+    for o in ops:
+        rg = [o["mode"]] if o["t"] == "herald" else list(range(o["mode"], o["mode"] + o["width"]))
+        if o["t"] == "herald" and o["expected"] > 1:
+            continue
+        if any(k in occ for k in rg):
+            continue
+        occ.update(rg)
+        if o["t"] == "herald" and o["mode"] < m:
+            nher += 1
+    free = m - nher
+    ln = free if rng.random() < 0.7 else rng.choice([x for x in (free - 1, free + 1, m) if x >= 0])
+    return {"kind": "decl", "m": m, "ops": ops, "user": [rng.choice([0, 0, 1, 1, 2]) for _ in range(ln)],
+            "entry": rng.choice(["experiment", "processor"])}
+
+
+def decl_real(cfg):
+    import perceval as pcvl
+    from perceval.components import Port
+    from perceval.utils import Encoding
+    if cfg["entry"] == "processor":
+        obj = pcvl.Processor("SLOS", cfg["m"])
+        exp = obj.experiment
+    else:
+        obj = exp = pcvl.Experiment(cfg["m"])
+    outcomes = []
+    for i, o in enumerate(cfg["ops"]):
+        try:
+            if o["t"] == "herald":
+                obj.add_herald(o["mode"], o["expected"])
+            else:
+                obj.add_port(o["mode"], Port(Encoding.RAW if o["width"] == 1 else Encoding.DUAL_RAIL, f"p{i}"))
+            outcomes.append("ok")
+        except Exception as e:  # noqa: BLE001 — every exception is an observation
+            outcomes.append(type(e).__name__)
+    out = {"outcomes": outcomes, "heralds": [[int(k), int(v)] for k, v in obj.heralds.items()],
+           "m": int(obj.m), "circuitSize": int(obj.circuit_size)}
+    try:
+        obj.with_input(pcvl.BasicState(cfg["user"]))
+        out["input"] = [int(x) for x in exp.input_state]
+    except Exception as e:  # noqa: BLE001
+        out["input"] = type(e).__name__
+    return out
+
+
+def judge_decl(chk, cfg):
+    try:
+        real = chk.real.call("decl_real", cfg)
+    except Crash as e:
+        return ("violation", "native-crash", f"declaration {cfg['ops']}: {e.how}")
+    rep = chk.lean.ask({"op": "c04decl", "m": cfg["m"], "ops": cfg["ops"], "user": cfg["user"]})
+    if "err" in rep:
+        return ("broken", "lean-rejects", f"driver rejected the request: {rep['err']}")
+    oc = real["outcomes"]
+    for o, r in zip(cfg["ops"], oc):
+        chk.count("decl_outcome", o["t"] + "/" + r)
+    if "IndexError" in oc:
+        chk.branch("decl-index-error")
+        if any(r == "ok" and o["t"] == "herald" for o, r in
+               zip(cfg["ops"][oc.index("IndexError") + 1:], oc[oc.index("IndexError") + 1:])):
+            chk.branch("decl-herald-accepted-after-index-error")
+    if "AssertionError" in oc:
+        chk.branch("decl-expected-refused")
+    seen_modes, port_modes = set(), set()
+    for o, r in zip(cfg["ops"], oc):
+        rg = [o["mode"]] if o["t"] == "herald" else list(range(o["mode"], o["mode"] + o["width"]))
+        if r == "UnavailableModeException":
+            if o["t"] == "herald":
+                chk.branch("decl-herald-refused-by-port" if o["mode"] in port_modes else "decl-herald-refused-by-herald")
+            else:
+                chk.branch("decl-port-refused")
+        elif r in ("ok", "IndexError"):
+            (seen_modes if o["t"] == "herald" else port_modes).update(rg)
+    chk.branch("decl-" + cfg["entry"])
+    chk.branch("decl-input-accepted" if isinstance(real["input"], list) else "decl-input-refused")
+    if real["heralds"] and len(real["heralds"]) >= 2:
+        chk.branch("decl-several-heralds")
+    # direct oracle on the real code (no Lean): the part of the property the declaration carries
+    hs = real["heralds"]
+    if "IndexError" not in oc:
+        inside = [h for h in hs]
+        if len({k for k, _ in hs}) != len(hs) or any(not (0 <= k < cfg["m"]) for k, _ in hs) \
+                or any(v not in (0, 1) for _, v in hs):
+            return ("violation", "declared-heralds-ill-formed",
+                    f"{cfg['entry']}: after {cfg['ops']} -> {oc} the heralds are {hs} on {cfg['m']} modes")
+        declared = [[o["mode"], o["expected"]] for o, r in zip(cfg["ops"], oc) if o["t"] == "herald" and r == "ok"]
+        if hs != declared:
+            return ("violation", "declared-heralds-differ",
+                    f"{cfg['entry']}: accepted add_herald calls {declared}, heralds property {hs}")
+        if real["circuitSize"] != cfg["m"] or real["m"] != cfg["m"] - len(inside):
+            return ("violation", "declared-mode-count",
+                    f"{cfg['entry']}: after {cfg['ops']} -> {oc}: m={real['m']}, circuit_size={real['circuitSize']}, "
+                    f"heralds {hs} on {cfg['m']} modes")
+        want = (lean_free_interleave(cfg["m"], hs, cfg["user"]) if len(cfg["user"]) == cfg["m"] - len(hs)
+                else "AssertionError")
+        if real["input"] != want:
+            return ("violation", "declared-with-input",
+                    f"{cfg['entry']}: heralds {hs}, with_input({cfg['user']}) gave {real['input']}, expected {want}")
+    for f in ("outcomes", "heralds", "m", "circuitSize", "input"):
+        if real[f] != rep[f]:
+            return ("broken", "decl-model-vs-code/" + f,
+                    f"{cfg['entry']}: {cfg['ops']} then with_input({cfg['user']}): code {f}={real[f]}, model {rep[f]}")
+    return None
+
+
+def handle_decl(chk, cfg, do_shrink=True):
+    chk.branch("decl-case")
+    chk.count("kind", "decl/" + cfg["entry"])
+    res = judge_decl(chk, cfg)
+    chk.case(("decl", cfg["entry"], cfg["m"], json.dumps(cfg["ops"]), len(cfg["user"])),
+             nontrivial=any(o["t"] == "herald" for o in cfg["ops"]),
+             sample={"kind": "decl", "m": cfg["m"], "ops": cfg["ops"]})
+    if res is None:
+        return
+    kind, sig, what = res
+    small = cfg
+    if do_shrink:
+        progress = True
+        while progress:
+            progress = False
+            for i in range(len(small["ops"])):
+                cand = dict(small, ops=small["ops"][:i] + small["ops"][i + 1:])
+                r2 = judge_decl(chk, cand)
+                if r2 is not None and r2[1] == sig:
+                    small, what, progress = cand, r2[2], True
+                    break
+    chk.fail(kind, sig, what, {"config": small})
+
+
+# ------------------------------------------------------------------------------------------------
+# EXTENSION 4b: Simulator.evolve_svd on mixtures of annotated Fock states — physical_perf, logical_perf and the
+# weights of the returned SVDistribution against PM.C04.evolveSvd / evolveSvdWeights (theorems evolve_svd_perf_spec,
+# evolve_svd_agrees_with_probs_svd, evolve_svd_perf_product, evolve_svd_weights_spec)
+# ------------------------------------------------------------------------------------------------
+def gen_evsvd_config(rng, max_m):
+    cfg = gen_sim_config(rng, max_m)
+    cfg["kind"] = "evsvd"
+    cfg["dets"] = None
+    if "prev" in cfg:
+        cfg["prev"]["how"] = rng.choice(["probs_svd", "evolve_svd", "evolve"])
+    return cfg
+
+
+def evsvd_real(cfg):
+    import perceval as pcvl
+    from perceval.simulators import Simulator
+    circ = build_circuit(cfg["circ"])
+    try:
+        sim = Simulator(pcvl.BackendFactory.get_backend(cfg["backend"]))
+        sim.set_circuit(circ)
+        sim.set_precision(0)
+        svd = svd_of(cfg["members"])
+        prev = cfg.get("prev")
+        if prev:
+            sim_select(sim, prev)
+            if prev["how"] == "probs_svd":
+                sim.probs_svd(svd, build_dets(prev["dets"]))
+            elif prev["how"] == "evolve_svd":
+                sim.evolve_svd(svd)
+            else:
+                sim.evolve(bs_of(cfg["members"][0]["state"]))
+        sim_select(sim, cfg)
+        res = sim.evolve_svd(svd)
+        after = float(sim.logical_perf)
+        U = np.array(circ.compute_unitary(), dtype=complex)
+    except Exception as e:  # noqa: BLE001 — every exception is an observation
+        return {"err": type(e).__name__, "msg": str(e)[:300]}
+    return {"phys": float(res["physical_perf"]), "logical": float(res["logical_perf"]), "after": after,
+            "weights": sorted(float(p) for p in res["results"].values()), "U": U,
+            "members": [{"w": mb["w"], "groups": groups_of(mb["state"])} for mb in cfg["members"]]}
+
+
+def _partitions(xs):
+    if not xs:
+        yield []
+        return
+    head, rest = xs[0], xs[1:]
+    for part in _partitions(rest):
+        yield [[head]] + part
+        for i in range(len(part)):
+            yield part[:i] + [[head] + part[i]] + part[i + 1:]
+
+
+def weights_match(code, model):
+    """the code's weights are the model's, possibly with some of them added up (members that evolve to the same
+    state vector share a key of the returned dictionary)"""
+    if len(code) > len(model):
+        return False, False
+    if len(code) == len(model):
+        return all(core.close(a, b, TOL) for a, b in zip(code, sorted(model))), False
+    if len(model) > 6:
+        return abs(sum(code) - sum(model)) < 1e-9, True
+    for part in _partitions(list(model)):
+        if len(part) == len(code) and all(core.close(a, b, TOL) for a, b in zip(code, sorted(sum(g) for g in part))):
+            return True, True
+    return False, True
+
+
+def judge_evsvd(chk, cfg):
+    try:
+        real = chk.real.call("evsvd_real", cfg)
+    except Crash as e:
+        return crash_verdict(cfg, e, "Simulator.evolve_svd")
+    if "err" in real:
+        return ("violation", "raises-" + real["err"], f"Simulator.evolve_svd raised {real['err']}: {real['msg']}")
+    H = sum(v for _, v in cfg["heralds"])
+    rep = chk.lean.ask({"op": "c04evsvd", "m": cfg["m"], "U": core.mat(real["U"].tolist()),
+                        "members": [{"w": core.rat(mb["w"]), "groups": mb["groups"]} for mb in real["members"]],
+                        "cfg": {"heralds": cfg["heralds"], "ps": cfg["psj"], "filter": cfg["filter"],
+                                "keepHeralds": cfg["keep"], "pnr": True}})
+    if "err" in rep:
+        return ("broken", "lean-rejects", f"driver rejected the request: {rep['err']}")
+    model, spec = rep["model"], rep["spec"]
+    mphys, mlog = float(Fraction(model["phys"])), float(Fraction(model["logical"]))
+    sphys, slog = float(Fraction(spec["phys"])), float(Fraction(spec["logical"]))
+    ret = float(Fraction(spec["retained"]))
+    chk.last_retained = ret
+    if ret > 1e-13:
+        chk.branch("evsvd-something-retained")
+        if cfg["heralds"]:
+            chk.branch("evsvd-retained-under-mask")
+    if 1e-13 < sphys < 1 - 1e-9:
+        chk.branch("evsvd-filter-rejects-some-members")
+    if sphys <= 1e-13:
+        chk.branch("evsvd-nothing-passes-the-filter")
+    if len(real["members"]) >= 2:
+        chk.branch("evsvd-mixture")
+    if any(len(mb["groups"]) >= 2 for mb in real["members"]):
+        chk.branch("evsvd-several-tags")
+    if cfg.get("prev"):
+        chk.branch("evsvd-reused-after-" + cfg["prev"]["how"])
+    mw = [float(Fraction(x)) for x in model["weights"]]
+    if len(mw) >= 2:
+        chk.branch("evsvd-several-weights")
+    bad = []
+    if not core.close(real["phys"], mphys, TOL):
+        bad.append(("physical_perf", f"returned {real['phys']!r}, model {mphys!r}"))
+    if not core.close(real["logical"], mlog, TOL):
+        bad.append(("logical_perf", f"returned {real['logical']!r}, model {mlog!r}"))
+    if not core.close(real["after"], mlog, TOL):
+        bad.append(("logical_perf-attribute", f"sim.logical_perf after the call {real['after']!r}, model {mlog!r}"))
+    okw, merged = weights_match(real["weights"], mw)
+    if merged:
+        chk.count("evsvd", "members-sharing-an-output-vector")
+    if not okw:
+        bad.append(("weights", f"returned weights {real['weights']}, model {sorted(mw)}"))
+    # the model against the specification and against probs_svd's model, exactly (theorems, checked on the instance;
+    # the inputs are floating-point matrices, so the engine is only approximately unitary: tolerance, not equality)
+    inst = []
+    if not core.close(mphys, sphys, TOL) or not core.close(mlog, slog, TOL):
+        inst.append(f"evolveSvd ({mphys!r}, {mlog!r}) vs specification ({sphys!r}, {slog!r})")
+    pphys, plog = float(Fraction(rep["probsSvd"]["phys"])), float(Fraction(rep["probsSvd"]["logical"]))
+    if not core.close(mphys, pphys, TOL) or not core.close(mlog, plog, TOL):
+        inst.append(f"evolveSvd ({mphys!r}, {mlog!r}) vs probsSvd ({pphys!r}, {plog!r})")
+    if inst:
+        return ("broken", "evsvd-model-instance", "; ".join(inst))
+    if not bad:
+        return None
+    # direct oracle: the selection-free simulator conditioned in Python
+    try:
+        ora = chk.real.call("direct_oracle", dict(cfg, kind="sim", dets=None), cfg["filter"])
+    except Crash as e:
+        return crash_verdict(cfg, e, "direct oracle")
+    obad = []
+    if not core.close(real["phys"], ora["phys"], 1e-7):
+        obad.append("physical_perf")
+    if ora["phys"] > 1e-9 and not core.close(real["logical"], ora["logical"], 1e-7):
+        obad.append("logical_perf")
+    what = (f"Simulator.evolve_svd, heralds {cfg['heralds']}, filter {cfg['filter']}, post-selection {cfg['ps']}, "
+            f"keep_heralds {cfg['keep']}, {len(real['members'])} member(s): " + "; ".join(w for _, w in bad))
+    if obad:
+        return ("violation", "evolve_svd-" + obad[0], what + f" — direct oracle: physical_perf {ora['phys']!r}, "
+                                                             f"logical_perf {ora['logical']!r}")
+    # (the weights of evolve_svd's returned distribution are not among the property's observation points: a
+    # difference there is a model/code disagreement, never a violation by itself)
+    return ("broken", "evsvd-model-vs-code/" + bad[0][0], what)
+
+
+def handle_evsvd(chk, cfg, do_shrink=True):
+    chk.branch("evsvd-case")
+    chk.count("kind", "evsvd/" + cfg["backend"])
+    chk.last_retained = 0.0
+    res = judge_evsvd(chk, cfg)
+    chk.case(("evsvd",) + signature_of(dict(cfg, kind="sim")),
+             nontrivial=bool(cfg["heralds"]) and chk.last_retained > 1e-13,
+             sample={k: cfg.get(k) for k in ("kind", "backend", "m", "heralds", "filter", "ps", "keep")})
+    if res is None:
+        return
+    kind, sig, what = res
+    small = cfg
+    if do_shrink:
+        def attempt(cand):
+            r2 = judge_evsvd(chk, cand)
+            return r2 if (r2 is not None and r2[1] == sig) else None
+        progress = True
+        while progress:
+            progress = False
+            cands = []
+            if small.get("prev"):
+                cands.append({k: v for k, v in small.items() if k != "prev"})
+            if len(small["members"]) > 1:
+                for i in range(len(small["members"])):
+                    ms = small["members"][:i] + small["members"][i + 1:]
+                    tot = sum(mb["w"] for mb in ms)
+                    cands.append(dict(small, members=[dict(mb, w=mb["w"] / tot) for mb in ms]))
+            if small["ps"]:
+                cands.append(dict(small, ps=None, psj=True))
+            for i in range(len(small["heralds"])):
+                cands.append(dict(small, heralds=small["heralds"][:i] + small["heralds"][i + 1:]))
+            for cand in cands:
+                r2 = attempt(cand)
+                if r2 is not None:
+                    small, what, progress = cand, r2[2], True
+                    break
+    chk.fail(kind, sig, what, {"config": small})
+
+
+REAL_FUNCS["decl_real"] = decl_real
+REAL_FUNCS["evsvd_real"] = evsvd_real
+
+
 def handle(chk, cfg, do_shrink=True):
     if os.environ.get("VERIF_C04_TRACE"):                    # (development switch) last configuration started
         with open(os.environ["VERIF_C04_TRACE"], "w") as f:
             json.dump({"config": cfg}, f)
     if cfg.get("kind") == "session":
         return handle_session(chk, cfg, do_shrink)
+    if cfg.get("kind") == "decl":
+        return handle_decl(chk, cfg, do_shrink)
+    if cfg.get("kind") == "evsvd":
+        return handle_evsvd(chk, cfg, do_shrink)
     hs = sorted(list(h) for h in cfg["heralds"])
     H = sum(v for _, v in hs)
     shape_branches(chk, cfg)
@@ -2504,7 +2847,16 @@ REQUIRED = ["mask-path", "no-heralds", "herald-in-the-middle", "adjacent-heralds
             "session-op-sel", "session-op-heralds", "session-op-clearHeralds", "session-op-ps", "session-op-clearPs",
             "session-op-filter", "session-op-keep", "session-set_selection-filter-only",
             "session-processor-postselection-cleared", "session-processor-postselection-replaced",
-            "session-processor-filter-changed", "session-processor-automatic-filter"]
+            "session-processor-filter-changed", "session-processor-automatic-filter",
+            # EXTENSION 4: declaration of heralds (Experiment.add_herald / add_port / with_input) and evolve_svd
+            "decl-case", "decl-experiment", "decl-processor", "decl-index-error",
+            "decl-herald-accepted-after-index-error", "decl-expected-refused", "decl-herald-refused-by-herald",
+            "decl-herald-refused-by-port", "decl-port-refused", "decl-input-accepted", "decl-input-refused",
+            "decl-several-heralds",
+            "evsvd-case", "evsvd-something-retained", "evsvd-retained-under-mask",
+            "evsvd-filter-rejects-some-members", "evsvd-nothing-passes-the-filter", "evsvd-mixture",
+            "evsvd-several-tags", "evsvd-several-weights", "evsvd-reused-after-probs_svd",
+            "evsvd-reused-after-evolve_svd", "evsvd-reused-after-evolve"]
 
 
 def run(chk: core.Check):
@@ -2516,7 +2868,11 @@ def run(chk: core.Check):
                 "sizes); heralds a detector cannot report (early exit); sessions of 2-4 queries on one Simulator / "
                 "Processor with selection changes in between (state-machine model); mixtures whose members superpose "
                 "different photon numbers through Simulator.probs_svd and Processor.with_input(StateVector) with every "
-                "kind of selection and detector layout (photon-count split); "
+                "kind of selection and detector layout (photon-count split); histories of add_herald / add_port calls "
+                "(refused calls caught: occupied mode, expected value 2, mode outside the circuit) on an Experiment / "
+                "Processor followed by with_input, against the declaration machine; Simulator.evolve_svd on tagged "
+                "mixtures (fresh and reused simulators): physical_perf, logical_perf and the weights of the returned "
+                "distribution; "
                 "distinct = distinct (entry point, engine, m, heralds with values in declaration order, filter, "
                 "post-selection, keep_heralds, input shape, detector layout, reused or not) signatures; "
                 "non-trivial = at least one heralded mode (the mask path is active)")
@@ -2551,6 +2907,14 @@ def run(chk: core.Check):
         "logical_perf is undefined: only results, physical_perf and the product are compared",
         "the automatic filter of a perfect source is stored by the first probs(); the reuse phase does not change the "
         "input of a processor that relies on it",
+        "declaration batch: ports are added at PortLocation.IN_OUT only (RAW: 1 mode, DUAL_RAIL: 2 modes), modes are "
+        "non-negative (a negative mode indexes Experiment._mode_type from the end), remove_port is never called (it "
+        "deletes a Herald port without restoring the mode counters — outside the property's quantifier), the circuit "
+        "holds no component that adds modes",
+        "evolve_svd batch: mixtures of annotated Fock states at precision 0; the state vectors of the returned "
+        "SVDistribution are not compared, only their weights (members that evolve to the same vector share a key: the "
+        "code's weights are then compared with sums of the model's); when every mode is heralded and the heralds are "
+        "discarded the code stores nothing (new_sv.m == 0) — modelled as coded",
     ]
     chk.required_branches = list(REQUIRED)
     chk.lean = core.LeanDriver("C04")
@@ -2586,6 +2950,10 @@ def run(chk: core.Check):
         # (last, so that the random streams of the batches above are what they were before this batch existed)
         for _ in range(chk.pick(90, 800) if on("multi") else 0):
             handle(chk, gen_multi_config(rng, 4))
+        for _ in range(chk.pick(150, 1500) if on("decl") else 0):
+            handle(chk, gen_decl_config(rng, 6))
+        for _ in range(chk.pick(120, 1000) if on("evsvd") else 0):
+            handle(chk, gen_evsvd_config(rng, 4))
         chk.extra["real_code_worker_crashes"] = chk.real.crashes
     finally:
         chk.real.close()
